@@ -8,9 +8,9 @@ HERE = os.path.dirname(os.path.dirname(os.path.abspath(__file__)))
 CHECKS = {
     "C01": dict(
         level="proof",
-        text="Deductive proof (Verus) that the real walk_node_for_targets, the four *_as_target tables, Node::as_target and the extract_* entry points satisfy `result == filter(pre-order enumeration of all nodes, kind in targets)` for every tree, root kind and target set; the enumeration and the kind oracle are generated from the parse-tree type definitions. A bounded search on the compiled code supplies counterexamples for replay and is not counted as proof.",
+        text="Deductive proof (Verus) that the real walk_node_for_targets, the four *_as_target tables, Node::as_target and the extract_* entry points satisfy `result == filter(pre-order enumeration of all nodes, kind in targets)` for every tree, root kind and target set, and that the walker's recursion terminates (measure: number of nodes below the root); the enumeration and the kind oracle are generated from the parse-tree type definitions. A bounded search on the compiled code supplies counterexamples for replay and is not counted as proof.",
         design="§4.1, §5, §9 C01",
-        note="Trusted: Verus/Z3, vstd specs of Vec/HashSet/Option, derived Clone/Eq/Hash (external_derive), pt.rs == compiled pt.rs (checksum), recursion termination not proved, stack depth not modelled.",
+        note="Trusted: Verus/Z3, vstd specs of Vec/HashSet/Option, derived Clone/Eq/Hash (external_derive), pt.rs == compiled pt.rs (checksum), stack depth not modelled (termination of the recursion IS proved: decreases all_nodes(node).len()).",
         technique="contract-based deductive verification (Verus) of the real ast.rs, per-arm obligations; bounded native search only for counterexamples",
     ),
 }
